@@ -21,7 +21,7 @@ func init() {
 			"R14.3 every write to the result happens under the result's mutex (the parser calls back concurrently); " +
 			"R14.4 window: the history is bounded by 3; below the bound the new kept count is appended, at the bound exactly the oldest element is dropped; the series value is the mean over the window, total-series is the last scrape's total; the proxy updates the estimate only after both scraper calls succeeded; " +
 			"R14.5 runtime info: sums are taken per dimension over the status map and the reported head series is bounded below by both the sum and Prometheus' own value (plus the units inference of C04 over pkg/sidecar, pkg/target, pkg/scrape, pkg/explore); " +
-			"R14.6 who may write ScrapeStatus.Series/TotalSeries: only the constructor and the scrape-result update (a failed scrape leaves the last total); R14.7 the scrape manager installs a fresh job table on every reload, no entry carried over from the previous one (a job reads its metric relabel rules from its own copy of the configuration); R14.8 an entry read out of one per-metric table is never installed in another one (aggregations own their entries; recorded counts are not added to).",
+			"R14.6 who may write ScrapeStatus.Series/TotalSeries: only the constructor and the scrape-result update (a failed scrape leaves the last total); R14.7 the scrape manager installs a fresh job table on every reload, no entry carried over from the previous one (a job reads its metric relabel rules from its own copy of the configuration); R14.8 an entry read out of one per-metric table is never installed in another one (aggregations own their entries; recorded counts are not added to); R14.4 also: every call of UpdateScrapeResult stores the estimate (no early return for an empty page).",
 		Assumptions: []string{"go/types and go/ssa are correct", "relabel.Process is pure (reviewed in the pinned prometheus module)"}})
 }
 
@@ -373,6 +373,17 @@ func runC14(p *engine.Prog, r *engine.Report) {
 		}
 		if nStore != 2 {
 			probs = append(probs, fmt.Sprintf("%d stores to the window (want 2: extend, shift)", nStore))
+		}
+		// every call takes the result into the window: no return before the estimate is stored
+		if !p.Info(up).MustPass(nil, nil, func(in ssa.Instruction) bool {
+			st, ok := in.(*ssa.Store)
+			if !ok {
+				return false
+			}
+			fa, ok := st.Addr.(*ssa.FieldAddr)
+			return ok && engine.FieldOf(fa) == fSeries
+		}) {
+			probs = append(probs, "a call can return without updating the estimate (a successful scrape would leave the window and the totals of an earlier one)")
 		}
 		r.Check(len(probs) == 0, "R14.4-window", "window in "+engine.FuncName(up), engine.FuncName(up)+" ("+p.Rel(up.Pos())+")", "bound 3; append below it, drop the oldest at it; Series = mean over the window; TotalSeries = last total", strings.Join(probs, "; "))
 	}
